@@ -60,7 +60,17 @@ def fint(x):
     return repr(x)
 
 
-LABELS = {"0..n-1": (0, 1), "1..n": (1, 1), "100..": (100, 1), "0,10,20..": (0, 10)}
+LABELS = {"0..n-1": (0, 1), "1..n": (1, 1), "100..": (100, 1), "0,10,20..": (0, 10),
+          # labels are labels, not positions: the history is the ROW order, whatever the labels' order
+          "descending": (1000, -1), "shuffled": None}
+NEAR_TIE_LEVELS = [0, 1000000, -1000000, 999999, -999999, 1000001, -1000001, 500000, -500000, 499999, -499999]
+
+
+def load_step_labels(n, labels):
+    if labels == "shuffled":
+        return [(i * 7919 + 13) % 10007 for i in range(n)]          # distinct, neither ascending nor descending
+    start, step = LABELS[labels]
+    return [start + step * i for i in range(n)]
 
 
 def make_signal(samples, ratios, labels="0..n-1"):
@@ -69,8 +79,7 @@ def make_signal(samples, ratios, labels="0..n-1"):
     (`labels` chooses the load_step labels: they are labels, not positions)."""
     if len(ratios) == 1:
         return np.asarray(samples, dtype=float)
-    start, step = LABELS[labels]
-    steps = [start + step * i for i in range(len(samples))]
+    steps = load_step_labels(len(samples), labels)
     mi = pd.MultiIndex.from_product([steps, range(len(ratios))], names=["load_step", "node_id"])
     return pd.Series([float(s * r) for s in samples for r in ratios], index=mi)
 
